@@ -223,6 +223,48 @@ theorem C19_reported_basename (isFile : Str → Bool) (libs : List Str) (out : S
     | ok l' => exact absurd hr (hne l')
     | unresolved n => rw [hr] at h; cases h
 
+/-- Header lines (`binary:`), as printed first by ldd on the BSDs, are ignored: a line ending
+    in `:` contributes no word, whatever it contains. -/
+theorem C19_header_ignored (line rest : Str) (hl : ∀ c ∈ line, isLineBreak c = false)
+    (hcolon : endsWith line [':'] = true) :
+    listingWords (line ++ '\n' :: rest) = listingWords rest := by
+  unfold listingWords
+  rw [splitLines_line line rest hl]
+  simp [List.filter_cons, hcolon]
+
+/-- Libtool archives resolve to their dlname: the first `dlname='<value>'` line whose value
+    is a plain file name gives exactly that value. -/
+theorem C19_dlname (v rest : Str) (hv : ∀ c ∈ v, isDlnameChar c = true) (hne : v ≠ []) :
+    dlnameSearch ("dlname='".toList ++ v ++ '\'' :: '\n' :: rest) = some v := by
+  have hstart : dlnameAt ("dlname='".toList ++ v ++ '\'' :: '\n' :: rest) = some v := by
+    unfold dlnameAt
+    have hp : dropPrefix? ("dlname='".toList ++ v ++ '\'' :: '\n' :: rest) "dlname='".toList
+        = some (v ++ '\'' :: '\n' :: rest) := by
+      rw [dropPrefix?_eq_some]; simp
+    rw [hp]
+    obtain ⟨h1, h2⟩ := takeWhile_dlname v ('\n' :: rest) hv
+    simp only [h1, h2]
+    cases v with
+    | nil => exact absurd rfl hne
+    | cons a as => simp
+  cases hd : ("dlname='".toList ++ v ++ '\'' :: '\n' :: rest) with
+  | nil => simp at hd
+  | cons c cs =>
+    rw [hd] at hstart
+    simp [dlnameSearch, hstart]
+
+/-- The dlname is reported by base name. -/
+theorem C19_dlname_basename (data : Str) (r : Str) (h : extractLibtoolShlib data = some r) :
+    '/' ∉ r := by
+  unfold extractLibtoolShlib at h
+  cases hs : dlnameSearch data with
+  | none => rw [hs] at h; cases h
+  | some g =>
+    rw [hs] at h
+    simp at h
+    rw [← h]
+    exact basename_no_slash g
+
 /-! ### non-vacuity: concrete instances of the hypotheses and conclusions -/
 
 example : matchWord "pango-1.0".toList "/usr/lib/libpango-1.0.so.0".toList = true := by decide
@@ -238,6 +280,10 @@ example :
 example :
     resolveWords ["foo".toList, "bar".toList] ["libfoo-bar.so".toList]
       = .unresolved ["foo".toList, "bar".toList] := by decide
+example : listingWords "a.out:\n\tlibfoo.so.1 => /l/libfoo.so.1 (0x1)\n".toList
+    = ["libfoo.so.1".toList, "=>".toList, "/l/libfoo.so.1".toList, "(0x1)".toList] := by decide
+example : extractLibtoolShlib "# x\ndlname='libfoo-1.0.so.0'\nlibrary_names='a b'\n".toList
+    = some "libfoo-1.0.so.0".toList := by decide
 example : Disjoint matchWord ["foo".toList, "bar".toList] ["libfoo.so".toList, "libbar.so".toList] := by
   intro w hw r₁ h₁ r₂ h₂
   simp only [List.mem_cons, List.not_mem_nil, or_false] at hw h₁ h₂
